@@ -276,3 +276,10 @@ def s_nested_comprehension(a, b, v):
     flat = [a[idx] * 10 + k for idx in range(len(counts)) for k in range(counts[idx])]
     pairs = [m for x in range(1, 4) for m in (x, -x)]
     return np.array(flat + pairs)
+
+
+def s_next_map(a, b, v):
+    first = next((k for k in (3, 5, 7) if a[0] + k > 100), -1)
+    second = next(x for x in (4, 6) if x > 4)
+    m = list(map(lambda x, y: x * 10 + y, [1, 2, 3], [7, 8, 9]))
+    return np.array([first, second] + m)
